@@ -126,6 +126,12 @@ def inline_crate(j):
         while bi < len(f['blocks']):
             b = f['blocks'][bi]
             t = b['term']
+            if t['t'] == 'call' and (t['callee'].get('def') or '') == 'std::iter::Iterator::fold' and len(t['args']) == 3:
+                if _for_each_to_loop(f, bi, by_name, inline_fn, stack, depth, fold=True):
+                    stats['inlined'] += 1
+                    stats['sites'].append('%s <- for_each' % f['name'])
+                    bi += 1
+                    continue
             if t['t'] == 'call' and (t['callee'].get('def') or '') == 'std::iter::Iterator::for_each' and len(t['args']) == 2:
                 if _for_each_to_loop(f, bi, by_name, inline_fn, stack, depth):
                     stats['inlined'] += 1
@@ -428,12 +434,17 @@ def _closure_def(f, op):
     return None, None
 
 
-def _for_each_to_loop(f, bi, by_name, inline_fn, stack, depth):
+def _for_each_to_loop(f, bi, by_name, inline_fn, stack, depth, fold=False):
     """`iter.for_each(closure)` (std Iterator, closure built in this function, or a fn item) is the loop
     `while let Some(x) = iter.next() { closure(x) }`: rewrite the call into exactly the MIR shape of a
     `for` loop, with the closure body spliced in, so that rules see one form for both spellings."""
     t = f['blocks'][bi]['term']
-    it_op, cb_op = t['args']
+    if fold:
+        # `iter.fold(init, |acc, x| body)` is `let mut acc = init; for x in iter { acc = body }; acc`
+        it_op, init_op, cb_op = t['args']
+    else:
+        it_op, cb_op = t['args']
+        init_op = None
     if it_op.get('o') not in ('copy', 'move'):
         return False
     it_ty = it_op['pl']['ty']
@@ -449,10 +460,12 @@ def _for_each_to_loop(f, bi, by_name, inline_fn, stack, depth):
     else:
         cname, cl = _closure_def(f, cb_op)
         g = by_name.get(cname) if cname else None
-        if g is None or g['argc'] != 2 or len(f['blocks']) + len(g['blocks']) > MAX_BLOCKS:
+        if g is None or g['argc'] != (3 if fold else 2) or len(f['blocks']) + len(g['blocks']) > MAX_BLOCKS:
             return False
         inline_fn(g, stack | {g['name']}, depth + 1)
-        item_ty = g['locals'][2]['ty']
+        item_ty = g['locals'][3 if fold else 2]['ty']
+    if fold and g is None:
+        return False
     L = len(f['locals'])
     l_it, l_ref, l_opt, l_d, l_unit = L, L + 1, L + 2, L + 3, L + 4
     f['locals'].extend([{'ty': it_ty, 'adt': ''}, {'ty': '&mut ' + it_ty, 'adt': ''}, {'ty': 'std::option::Option<%s>' % item_ty, 'adt': 'std::option::Option'},
@@ -464,11 +477,21 @@ def _for_each_to_loop(f, bi, by_name, inline_fn, stack, depth):
             'term': {'t': 'call', 'callee': {'def': 'std::iter::Iterator::next', 'args': [it_ty], 'resolved': True, 'path': '<%s as std::iter::Iterator>::next' % it_ty,
                                              'trait': 'std::iter::Iterator', 'self': it_ty, 'local': False, 'krate': 'core'},
                      'args': [{'o': 'move', 'pl': pl(l_ref, '&mut ' + it_ty)}], 'dest': pl(l_opt, 'std::option::Option<%s>' % item_ty), 'to': bS, 'line': line, 'exp': True}}
+    none_target = cont
+    l_acc = None
+    if fold:
+        acc_ty = g['locals'][2]['ty']
+        l_acc = len(f['locals'])
+        f['locals'].append({'ty': acc_ty, 'adt': ''})
+        bBody += 1      # one extra block: the exit that hands the accumulator to fold's destination
     blkS = {'cleanup': False, 'stmts': [{'s': 'assign', 'pl': pl(l_d, 'isize'), 'rv': {'r': 'discr', 'pl': pl(l_opt, 'std::option::Option<%s>' % item_ty), 'adt': 'std::option::Option'}, 'line': line, 'exp': True}],
-            'term': {'t': 'switch', 'd': {'o': 'move', 'pl': pl(l_d, 'isize')}, 'targets': [['0', cont], ['1', bBody]], 'otherwise': bU, 'line': line, 'exp': True}}
+            'term': {'t': 'switch', 'd': {'o': 'move', 'pl': pl(l_d, 'isize')}, 'targets': [['0', (B + 3) if fold else cont], ['1', bBody]], 'otherwise': bU, 'line': line, 'exp': True}}
     blkU = {'cleanup': False, 'stmts': [], 'term': {'t': 'unreachable'}}
     item = {'o': 'move', 'pl': pl(l_opt, item_ty, [{'k': 'downcast', 'v': 1, 'n': 'Some'}, {'k': 'field', 'i': 0, 'n': '0'}])}
     f['blocks'].extend([blkH, blkS, blkU])
+    if fold:
+        f['blocks'].append({'cleanup': False, 'stmts': [{'s': 'assign', 'pl': copy.deepcopy(t['dest']), 'rv': {'r': 'use', 'a': {'o': 'move', 'pl': pl(l_acc, acc_ty)}}, 'line': line, 'exp': True}],
+                            'term': {'t': 'goto', 'to': cont}})
     if fn_item is not None:
         c = {'def': fn_item['path'], 'args': fn_item.get('args', []), 'resolved': False, 'path': fn_item['path'], 'local': True, 'krate': ''}
         f['blocks'].append({'cleanup': False, 'stmts': [], 'term': {'t': 'call', 'callee': c, 'args': [item], 'dest': pl(l_unit, '()'), 'to': bH, 'line': line, 'exp': False}})
@@ -483,13 +506,17 @@ def _for_each_to_loop(f, bi, by_name, inline_fn, stack, depth):
             env = {'o': 'move', 'pl': pl(L2, env_ty)}
         else:
             env = {'o': 'move', 'pl': pl(cb_op['pl']['l'], cb_op['pl']['ty'])}
-        stub = {'cleanup': False, 'stmts': stmts, 'term': {'t': 'call', 'callee': {'def': g['name'], 'path': g['name'], 'local': True}, 'args': [env, item], 'dest': pl(l_unit, '()'), 'to': bH, 'line': line, 'exp': False}}
+        cargs = [env, {'o': 'copy', 'pl': pl(l_acc, acc_ty)}, item] if fold else [env, item]
+        cdest = pl(l_acc, acc_ty) if fold else pl(l_unit, '()')
+        stub = {'cleanup': False, 'stmts': stmts, 'term': {'t': 'call', 'callee': {'def': g['name'], 'path': g['name'], 'local': True}, 'args': cargs, 'dest': cdest, 'to': bH, 'line': line, 'exp': False}}
         f['blocks'].append(stub)
         if not _splice(f, bBody, g, 'fn'):
             return False
         f.setdefault('_inlined_closures', []).append(g['name'])
     # the original block: move the iterator into its slot and enter the loop
     f['blocks'][bi]['stmts'].append({'s': 'assign', 'pl': pl(l_it, it_ty), 'rv': {'r': 'use', 'a': copy.deepcopy(it_op)}, 'line': line, 'exp': True})
+    if fold:
+        f['blocks'][bi]['stmts'].append({'s': 'assign', 'pl': pl(l_acc, acc_ty), 'rv': {'r': 'use', 'a': copy.deepcopy(init_op)}, 'line': line, 'exp': True})
     # the unit result of for_each
     f['blocks'][bi]['term'] = {'t': 'goto', 'to': bH}
     return True
